@@ -16,30 +16,46 @@ CONST_TABLE = [
 ]
 MANIFEST = {
     "text": "Lean 4 theorems about an executable model of the notification data path (bounded sync/async queues, the "
-            "Connection task's poll loop with the slot on the shared inbound channel reserved before reading, FIFO "
-            "pipes, the handle's peers filter, clogged => one ForceClose): for every schedule (any choice between the "
-            "two queues, any reader stall pattern) the frames read by the remote are, per sending mode, a prefix of the "
-            "accepted notifications in order (hence at most once and without gaps); the synchronous send is one "
-            "non-blocking step with result ok/clogged/no-connection; an inbound frame above the maximum is never "
-            "delivered. Tie: bursts beyond both channel capacities, reader stalls (bounded pipe, partial reads), both modes "
-            "interleaved (checker mode for the select! choice), close/reopen cycles on the real Connection task and on "
-            "the model; sequence-number oracle.",
+            "Connection task's poll loop: take the parked notification or either non-empty queue, poll_ready with the "
+            "substream's back-pressure boundary, park at most one notification, start_send, flush; the start() loop that "
+            "re-enters poll_next after every inbound notification; the slot on the shared inbound channel reserved before "
+            "reading; FIFO pipes; the handle's peers filter; clogged => one ForceClose): for every schedule (any choice of "
+            "select! between the two queues, any reader stall pattern, any pipe size) the frames read by the remote are, per "
+            "sending mode, a prefix of the accepted notifications in order (hence at most once and without gaps); while the "
+            "task lives the accepted notifications are exactly read ++ in the substream ++ parked ++ queued, so nothing is "
+            "lost and a drained open stream has delivered everything; the synchronous send is one non-blocking step with "
+            "result ok/clogged/no-connection; a poll of the task never moves an inbound frame above the maximum into the "
+            "user's channel. Tie: bursts beyond both channel capacities, reader stalls (bounded pipe, partial reads), both "
+            "modes queued at once while the substream is beyond its 64 KiB boundary and the pipe is full, notifications of "
+            "16383/16384/16385 bytes, drains to quiescence with the stream open, close/reopen cycles on the real Connection "
+            "task and on the model (checker mode: the model follows every select! choice consistent with the observations); "
+            "sequence-number oracle incl. delivered = accepted at quiescence.",
     "note": "Trusted: Lean kernel; axioms propext/Classical.choice/Quot.sound; the hand-written model and its sampled tie; "
-            "tokio mpsc FIFO + fair semaphore; Substream codec (C04) reduced to frame sizes.",
+            "tokio mpsc FIFO + fair semaphore; Substream codec (C04) reduced to frame sizes. The driver does not model which "
+            "wakers are registered: where a poll without a wake-up would not be a no-op (parked notification, substream "
+            "below the boundary again) it accepts both 'polled' and 'not polled'.",
     "technique": "Lean 4 proof (invariant over all schedules) + model/implementation correspondence check (checker mode)",
     "design_ref": "DESIGN.md §7 C12",
 }
-RULE = ("seeded histories of sync/async sends with sequence numbers, task polls, bounded and partial remote reads, remote "
-        "notifications incl. oversized ones, user polls, closes by either side and reopen cycles over random channel/pipe "
-        "capacities, run on the real Connection+Sink+Handle and on the Lean model (checker mode for the order in which the "
-        "two queues are drained); non-trivial = at least one notification delivered in each direction or a clogged result")
+RULE = ("seeded histories of sync/async sends with sequence numbers (sizes 3..max+5 incl. 127/128/129 and 16383/16384/16385), "
+        "task polls, bounded and partial remote reads, remote notifications incl. oversized ones, user polls, closes by either "
+        "side and reopen cycles over random channel/pipe capacities; every fourth history fills the outbound substream beyond "
+        "its back-pressure boundary with the reader stalled, queues BOTH modes at once, then drains (`drain` = run/rread in "
+        "turns until nothing moves) with the stream open; run on the real Connection+Sink+Handle and on the Lean model "
+        "(checker mode for the select! choices); oracle: per mode no duplicate, delivered is a prefix of accepted (a skipped "
+        "one before a delivered one = no_gap_within_open_period), nothing above the maximum, and at quiescence of a stream "
+        "that was open all the time delivered = accepted (else loss); non-trivial = at least one notification delivered in "
+        "each direction or a clogged result")
 TRUSTED_BASE = ["Lean 4.33 kernel", "axioms: propext, Classical.choice, Quot.sound only",
-                "hand-written model Model/Notif/Channel.lean tied to connection.rs/handle.rs by this correspondence run",
+                "hand-written model Model/Notif/Channel.lean tied to connection.rs/handle.rs/substream sink by this correspondence run",
                 "adapter /repo/src/verif/c12.rs + verif/io.rs, harness, verif.py, checks/c12.py",
                 "tokio mpsc: FIFO, try_send/send semantics, fair semaphore for waiting senders",
-                "unsigned-varint framing reduced to frame lengths (C04 covers the codec)"]
+                "unsigned-varint framing reduced to frame lengths (C04 covers the codec)",
+                "waker registration is not modelled (driver accepts polled/not polled where it matters)"]
 ASSUMPTIONS = ["sequence numbers of accepted notifications are distinct per mode (the generator numbers them)",
-               "channels are FIFO"]
+               "channels are FIFO",
+               "quiescence rule: applies only to a stream opened by `open` with no close/rclose/oversized frame or notification "
+               "and no task end since; a sync `ok` counts as accepted only while the handle holds a sink for the peer"]
 KEEP_PREFIX = 1
 
 
@@ -96,7 +112,8 @@ def gen_case(rng, tier):
         elif r < 0.95:
             ops.append(rng.choice(["close", "rclose", "drain"]))
         else:
-            ops += ["run", "events", "open", "events"]
+            # sometimes the handle learns of the end / of the new stream only later
+            ops += rng.choice([["run", "events", "open", "events"]] * 8 + [["run", "open", "events"], ["run", "events", "open"]])
     if rng.random() < 0.7 and cap * 300 > 80 * mx:
         ops += ["drain", "events"]              # everything is read with the stream still open (unless it was closed)
     else:
@@ -167,7 +184,7 @@ def gen_backpressure(rng, tier):
 
 
 def gen_cases(rng, tier):
-    n = {"quick": 800, "thorough": 30000, "search": 4000}[tier]
+    n = {"quick": 800, "thorough": 60000, "search": 4000}[tier]
     for i in range(n):
         yield gen_backpressure(rng, tier) if i % 4 == 3 else gen_case(rng, tier)
 
@@ -180,7 +197,9 @@ def corpus():
     return [["cfg sync=2 async=1 notif=2 cap=16 max=32", "open", "events", "sync 1 5", "sync 2 5", "sync 3 5", "async 1 5",
              "async 2 5", "run", "rread", "run", "rread", "rread", "rsend 1 4", "rsend 2 4", "rsend 3 4", "rsend 4 40", "run",
              "events", "run", "events", "sync 4 5", "open", "events", "sync 5 5", "run", "rread", "close", "run", "events",
-             "sync 6 5"], big]
+             "sync 6 5"], big,
+            ["cfg sync=1 async=1 notif=1 cap=70000 max=16384", "open", "events", "rsend 1 16385", "run", "open", "sync 3 127",
+             "async 1 5", "events", "sync 4 127", "async 2 5", "drain"]]
 
 
 def model_lines(case, impl):
@@ -282,6 +301,9 @@ def oracle(case, out):
         if t[0] == "cfg":
             m = re.search(r"max=(\d+)", op)
             mx = int(m.group(1)) if m else 256
+            acc, got = {"s": [], "a": []}, {"s": [], "a": []}      # a fresh component
+            rsent, rgot, old_sent = [], [], []
+            view, stream, broken = False, False, True
         elif t[0] == "open":
             acc = {"s": [], "a": []}
             got = {"s": [], "a": []}
